@@ -801,6 +801,8 @@ fn c03_oracle(b: &[u8], d: &Dec, found: &mut Found)
 						{
 							found.fail(input(), format!("decoded `{}` re-encodes to {} which decodes to `{}`", show_instr(i), hex(&out[..m]), show_dec(&d2)));
 						}
+						// re-encoding needs no more room than the instruction occupied
+						else if let Some(what) = exact_fit(i, m, &out) {found.fail(input(), format!("decoded `{}`: {what}", show_instr(i)));}
 					}
 				},
 				other => found.fail(input(), format!("decoded `{}` cannot be re-encoded: `{}`", show_instr(i), show_enc(&other))),
@@ -1077,6 +1079,15 @@ pub fn run(id: &str, cx: &mut Cx)
 			Some(("dec", rest)) => single_dec(cx, rest),
 			Some(("spec", rest)) => single_spec(cx, rest),
 			Some(("values", rest)) => public_values(cx, Some(rest.trim())),
+			Some(("image", rest)) =>
+			{
+				let w: Vec<&str> = rest.split(' ').collect();
+				match (w.first().and_then(|x| x.parse::<u64>().ok()), w.get(1).and_then(|x| x.parse::<usize>().ok()))
+				{
+					(Some(seed), Some(n)) => {let mut found = Found::default(); image_case(seed, n, &mut found); merge(cx, vec![found]);},
+					_ => cx.report.oracle_fail(input.clone(), "unrecognised replay input"),
+				}
+			},
 			Some(("rset", rest)) =>
 			{
 				let w: Vec<&str> = rest.split(' ').collect();
@@ -1389,6 +1400,52 @@ interval plus the type maximum); B: all offsets -2051..2050 for all 15 condition
 	}
 }
 
+/// an image of decoded instructions re-encoded IN PLACE, one after the other, each into the rest of the image (`image <seed> <n>`): the
+/// last instruction has exactly its own length left
+fn image_case(seed: u64, n: usize, found: &mut Found)
+{
+	let mut rng = Rng::new(seed);
+	let input = format!("image {seed} {n}");
+	let mut image: Vec<u8> = Vec::new();
+	let mut instrs: Vec<(usize, Instruction, usize)> = Vec::new();
+	while instrs.len() < n
+	{
+		let h0 = if rng.chance(1, 6) {0xF000 | rng.below(0x800) as u16} else {rng.next() as u16};
+		let h1 = if rng.chance(1, 2) {0xD000 | rng.next() as u16} else {0x8000 | rng.next() as u16};
+		let b = [h0 as u8, (h0 >> 8) as u8, h1 as u8, (h1 >> 8) as u8];
+		if let Ok(Ok((len, i))) = real_dec(&b)
+		{
+			// only canonical encodings can be reproduced in place
+			if let Enc::Ok(m, out) = real_enc(&i) {if m == len && out[..m] == b[..len] {instrs.push((image.len(), i, len)); image.extend_from_slice(&b[..len]);}}
+		}
+	}
+	let original = image.clone();
+	let r = guarded(||
+	{
+		let mut img = image.clone();
+		let mut res = Vec::new();
+		for (pos, i, _) in &instrs {res.push(i.encode(&mut img[*pos..]).map_err(|e| format!("{e:?}")));}
+		(img, res)
+	});
+	found.evaluations += n as u64;
+	match r
+	{
+		Err(p) => found.fail(input, format!("re-encoding an image in place panicked: {p}")),
+		Ok((img, res)) =>
+		{
+			for (k, ((pos, i, len), r)) in instrs.iter().zip(res.iter()).enumerate()
+			{
+				if *r != Ok(*len)
+				{
+					found.fail(input.clone(), format!("instruction {k} of {n} (`{}`, {len} bytes at offset {pos} of a {}-byte image, {} bytes of room) re-encodes to {r:?}", show_instr(i), original.len(), original.len() - pos));
+					return;
+				}
+			}
+			if img != original {found.fail(input, "re-encoding the image in place changed it".to_owned());}
+		},
+	}
+}
+
 fn run_c03(cx: &mut Cx)
 {
 	cx.report.rule = "all 2^16 halfwords; all 6144 x 65536 pairs with first halfword 0xE800..0xFFFF (block digests on both sides, C03 oracle on every pattern); \
@@ -1404,6 +1461,15 @@ non-trivial = decodes to an instruction; distinct = distinct decoded instruction
 	let found = run_jobs(cx, &jobs, |_, job, model| dec_block(job, model));
 	merge(cx, found);
 	cx.report.exhaustive = true;
+
+	// images re-encoded in place (the last instruction has exactly its own length left; both 2- and 4-byte last instructions occur)
+	{
+		let mut found = Found::default();
+		let k = if cx.thorough() {20_000} else {2_000};
+		for _ in 0..k {let seed = cx.rng.next(); image_case(seed, 1 + (seed % 12) as usize, &mut found);}
+		found.hit("images re-encoded in place", k);
+		merge(cx, vec![found]);
+	}
 
 	// truncations and trailing bytes, element by element
 	let mut inputs: Vec<Vec<u8>> = vec![Vec::new()];
